@@ -8,6 +8,11 @@ Two ways of running the real code:
   from a queue the harness controls, able to raise ``MqttError`` and to stay pending at disconnect,
   delivering binary payloads).
 
+Part E runs ONE ``MQTTClient`` through several connect / disconnect cycles (``Broker``: a stand-in for the aiomqtt
+client class that makes a new ``FakeClient`` connection per call) and compares every step with the object model
+(``Model/MqttObject.lean``, driver commands ``onew`` / ``oconnect`` / ``odisconnect`` / ``oev`` / ``oread`` / ``owrite`` /
+``osub``).
+
 Nothing here can block for ever: every call into the implementation that may suspend runs as a task that
 is polled (``guarded``) or waited for with a time-out.
 """
@@ -668,6 +673,319 @@ def split_state(o: str):
     return out
 
 
+# ---- part E: ONE client object across several connections -------------------------------------
+#
+# A run is a list of operations on one MQTTClient:
+#   ["connect", aenter, sub_fail_at, aexit]   aenter/aexit: "ok" | "MqttError"; sub_fail_at: None | 0..4 (that subscription
+#                                              and the later ones fail); aexit is what the clean-up's __aexit__ does
+#   ["disconnect", aexit]   ["msg", fields, hex]   ["err"]   ["read"]   ["write", line, pub]   ["sub", outcome]
+# Broker events go to the connection made last (a connection that was closed, or never opened, has nobody listening).
+
+OBJ_OUT = "out/x"
+OBJ_LINES = ["1;2;1;0;2;on\n", "1;2;1;1;2;a;b\n", "7;255;3;0;9;\n", "1;2;1;0;2"]
+N_SUBS = 5
+
+
+class Broker:
+    """Stands in for the aiomqtt.Client *class*: every call makes a new connection object (a FakeClient with its own
+    message queue); ``script`` is what the next connection will do."""
+
+    def __init__(self) -> None:
+        self.conns: list[FakeClient] = []
+        self.script: dict = {}
+
+    def __call__(self, *args, **kwargs):
+        conn = FakeClient(dict(self.script))
+        conn.ctor = (args, kwargs)
+        self.conns.append(conn)
+        return conn
+
+
+def object_runs(ctx, rng):
+    runs = []
+    for c in lib.load_corpus("C18"):
+        if c.get("kind") == "object":
+            runs.append({"in": c["in_prefix"], "ops": c["ops"], "label": "corpus"})
+    ok5 = ["connect", "ok", None, "ok"]
+    m1, m2, m3 = ["msg", [1, 2, 1, 0, 2], b"on".hex()], ["msg", [0, 255, 3, 0, 2], "55.7;13.0;18".encode().hex()], \
+        ["msg", [7, 255, 4, 0, 0], b"\xff\xfe".hex()]
+    w = ["write", OBJ_LINES[0], "ok"]
+    scenarios = [
+        # unread items at a disconnect are read afterwards, before and after the next connect
+        [ok5, m1, m2, m3, ["disconnect", "ok"], ["read"], ok5, ["read"], m1, ["read"], ["read"], ["disconnect", "ok"]],
+        # reads pending across a reconnect are served by the next connection
+        [ok5, ["read"], ["read"], ["disconnect", "ok"], ["read"], ok5, m2, m1, m3, ["read"], ["disconnect", "MqttError"], ok5,
+         ["disconnect", "ok"]],
+        # three connections; a broker error ends the second; __aexit__ raises
+        [ok5, m1, ["disconnect", "MqttError"], ok5, ["err"], m1, ["read"], ["read"], ["read"], ["disconnect", "MqttError"],
+         ok5, m2, ["disconnect", "ok"]],
+        # failing subscriptions, then a good connect on the same object
+        [["connect", "ok", 0, "ok"], ["connect", "ok", 3, "MqttError"], ok5, m1, ["read"], w, ["disconnect", "ok"],
+         ["connect", "ok", 4, "ok"], ok5, ["disconnect", "ok"]],
+        # failing broker connection: what the object does afterwards is an observation (model comparison only)
+        [ok5, m1, ["disconnect", "ok"], ["connect", "MqttError", None, "ok"], ok5, ["disconnect", "ok"], w, ["read"], ["read"]],
+        [["connect", "MqttError", None, "ok"], m1, ["read"]],
+        # misuse: the guards
+        [["disconnect", "ok"], w, ["sub", "ok"], ["write", OBJ_LINES[3], "ok"], ok5, ok5, ["sub", "ok"], ["sub", "MqttError"],
+         w, ["write", OBJ_LINES[1], "MqttError"], ["write", OBJ_LINES[2], "ok"], ["write", OBJ_LINES[3], "ok"],
+         ["disconnect", "ok"], ["disconnect", "ok"], w, ok5, ["disconnect", "ok"]],
+        # events while disconnected reach nobody
+        [m1, ["err"], ok5, ["disconnect", "ok"], m2, ["err"], ["read"], ok5, m3, ["disconnect", "ok"], ["read"]],
+    ]
+    for k, ops in enumerate(scenarios):
+        runs.append({"in": PREFIXES[k % 3], "ops": [list(o) for o in ops], "label": "scenario"})
+    n_random = 260 if ctx.tier == "quick" else 6000
+    for k in range(n_random):
+        ops = []
+        cycles = rng.randint(2, 4) if ctx.tier == "quick" or k % 10 else rng.randint(5, 12)
+        stuck = False
+        for cyc in range(cycles):
+            for _ in range(rng.choice([0, 0, 1, 2])):            # while disconnected
+                ops.append(rng.choice([["read"], ["read"], random_msg(rng), ["err"], ["write", rng.choice(OBJ_LINES), "ok"],
+                                       ["disconnect", "ok"], ["sub", "ok"]]))
+            x = rng.random()
+            last = cyc == cycles - 1
+            if x < (0.25 if last else 0.03):
+                ops.append(["connect", "MqttError", None, rng.choice(["ok", "MqttError"])])
+                stuck = True
+                continue
+            if x < 0.25 and not last:
+                ops.append(["connect", "ok", rng.randrange(N_SUBS), rng.choice(["ok", "ok", "MqttError"])])
+                continue
+            ops.append(["connect", "ok", None, "ok"])
+            for _ in range(rng.randint(0, 7)):                   # while connected
+                y = rng.random()
+                if y < 0.45:
+                    ops.append(random_msg(rng))
+                elif y < 0.8:
+                    ops.append(["read"])
+                elif y < 0.86:
+                    ops.append(["err"])
+                elif y < 0.94:
+                    ops.append(["write", rng.choice(OBJ_LINES), rng.choice(["ok", "ok", "MqttError"])])
+                elif y < 0.97:
+                    ops.append(["connect", "ok", None, "ok"])
+                else:
+                    ops.append(["sub", rng.choice(["ok", "MqttError"])])
+            ops.append(["disconnect", rng.choice(["ok", "ok", "ok", "MqttError"])])
+        for _ in range(rng.randint(0, 3)):
+            ops.append(["read"])
+        runs.append({"in": PREFIXES[k % len(PREFIXES)], "ops": ops, "label": "random" + ("-stuck" if stuck else "")})
+    return runs
+
+
+def random_msg(rng):
+    bad = rng.random() < 0.2
+    return ["msg", list(rng.choice(SESSION_FIELDS)), rng.choice(BAD_BYTES if bad else GOOD_BYTES).hex()]
+
+
+def res_of(r) -> str:
+    if r[0] == "ok":
+        return "done"
+    if r[0] == "transport":
+        return {"TransportError": "transportError", "TransportFailedError": "transportFailed"}.get(r[1], "transport:" + str(r[1]))
+    if r[0] == "foreign":
+        return "foreign:" + str(r[1])
+    return str(r[0])
+
+
+async def run_object(corr: Corr, run: dict):
+    """One MQTTClient through the whole run.  Returns the observations, one per op:
+    (result, client held, task state, results of the reads completed so far, reads pending, queue size)."""
+    prefix, ops = run["in"], run["ops"]
+    rec = {"kind": "object", "in_prefix": prefix, "ops": ops}
+    broker = Broker()
+    mqtt_mod.AsyncioClient = broker
+    tr = mqtt_mod.MQTTClient("broker.invalid", 1883, in_prefix=prefix, out_prefix=OBJ_OUT)
+    reads: list[asyncio.Task] = []
+    steps = []
+    # the oracle's own bookkeeping, from what the calls returned
+    link = "down"          # down | up | deaf (connected, reception ended by a broker error)
+    clean = True           # no connection was ever opened, or the last one was closed / never came to be
+    arrivals: list = []
+    bad = False            # the oracle stops judging a run at its first violation (what follows is a consequence)
+    pending_before_disc = unread_before_disc = 0
+
+    def judge(what: str, case: dict) -> None:
+        nonlocal bad
+        if not bad:
+            corr.violate(what, case)
+        bad = True
+
+    for i, op in enumerate(ops):
+        here = {**rec, "at_op": i}
+        res = "done"
+        kind = op[0]
+        if kind == "connect":
+            broker.script = {"aenter": op[1], "subscribe": op[2], "aexit": op[3]}
+            r = await guarded(tr.connect())
+            res = res_of(r)
+            healthy = op[1] == "ok" and op[2] is None
+            if clean and link == "down":
+                if healthy and r[0] != "ok":
+                    judge("connect with a healthy broker raised on an object that is not connected "
+                          "(new, or disconnected before): " + res, {**here, "got": repr(r)})
+                elif not healthy and r[0] != "transport":
+                    judge("connect with a failing broker did not raise a TransportError: " + res, {**here, "got": repr(r)})
+                if r[0] == "ok":
+                    link, clean = "up", False
+                    if pending_before_disc:
+                        corr.count("object:reads-pending-across-reconnect", pending_before_disc)
+                elif op[1] != "ok":
+                    clean = False     # observation: the object keeps the client it could not open (see the notes)
+                    corr.count("object:observation:failed-broker-connect")
+                if r[0] != "ok":
+                    if task_state(tr) != "none":
+                        judge("a failed connect left the receive task behind", {**here, "task": task_state(tr)})
+                    if op[1] == "ok" and getattr(tr, "_client", None) is not None:
+                        judge("a failed subscription left the client behind", here)
+            elif link == "down" and not clean:
+                corr.count("object:observation:connect-after-failed-broker-connect:" + res)
+            else:
+                corr.count("object:misuse:connect-while-connected:" + res)
+        elif kind == "disconnect":
+            if broker.conns:
+                broker.conns[-1].script["aexit"] = op[1]
+            pending_before_disc = sum(1 for t in reads if not t.done())
+            unread_before_disc = max(0, len(arrivals) - len(reads))
+            r = await guarded(tr.disconnect())
+            res = res_of(r)
+            if link != "down":
+                if r[0] != "ok":
+                    judge("disconnect raised " + str(r[1] or r[0]), {**here, "got": repr(r)})
+                else:
+                    if task_state(tr) != "none" or getattr(tr, "_client", None) is not None:
+                        judge("disconnect returned but the object still holds its receive task or its client",
+                              {**here, "task": task_state(tr)})
+                    if broker.conns[-1].exited != 1:
+                        judge("disconnect did not close the client", {**here, "exited": broker.conns[-1].exited})
+                    if unread_before_disc:
+                        corr.count("object:unread-at-disconnect", unread_before_disc)
+                link, clean = "down", r[0] == "ok"
+            else:
+                corr.count("object:misuse:disconnect-while-not-connected:" + res)
+        elif kind == "msg":
+            topic, payload = topic_of(prefix, op[1]), bytes.fromhex(op[2])
+            if broker.conns:
+                broker.conns[-1].feed(topic, payload)
+            if link == "up":
+                try:
+                    n, c, cmd, ack, t = op[1]
+                    arrivals.append(("m", f"{n};{c};{cmd};{ack};{t};" + payload.decode()))
+                except UnicodeDecodeError:
+                    arrivals.append(("e",))
+        elif kind == "err":
+            if broker.conns:
+                broker.conns[-1].feed_error()
+            if link == "up":
+                arrivals.append(("e",))
+                link = "deaf"
+        elif kind == "read":
+            reads.append(asyncio.ensure_future(tr.read()))
+        elif kind == "write":
+            before = len(broker.conns[-1].published) if broker.conns else 0
+            if broker.conns:
+                broker.conns[-1].script["publish"] = op[2]
+            r = await guarded(tr.write(op[1]))
+            res = res_of(r)
+            if r[0] == "ok":
+                pubs = broker.conns[-1].published[before:] if broker.conns else []
+                if len(pubs) == 1:
+                    tp, pl, q, _ = pubs[0]
+                    res = f"pub:{enc(tp)}:{enc('' if pl is None else pl)}:{q}"
+                else:
+                    res = f"published-{len(pubs)}-times"
+            if link != "down" and len(op[1].split(";")) >= 6:
+                want = "transport" if op[2] != "ok" else "ok"
+                if r[0] != want:
+                    judge("write on a connected object: expected " + want, {**here, "got": repr(r)})
+        elif kind == "sub":
+            if broker.conns:
+                broker.conns[-1].script["subscribe"] = None if op[1] == "ok" else 0
+            r = await guarded(tr._subscribe(prefix + "/extra", 0))  # noqa: SLF001
+            res = res_of(r)
+        await settle()
+        delivered = []
+        done_flags = [t.done() for t in reads]
+        for t in reads:
+            if not t.done():
+                break
+            o = outcome_of(t)
+            delivered.append(("m", o[1]) if o[0] == "ok" else (("e",) if o[0] == "transport" else o))
+        try:
+            qsize = tr._incoming_messages.qsize()  # noqa: SLF001
+        except Exception:  # noqa: BLE001
+            qsize = -1
+        steps.append((res, 0 if getattr(tr, "_client", None) is None else 1, task_state(tr), delivered,
+                      len(reads) - len(delivered), qsize))
+        if bad:
+            continue
+        here = {**here, "delivered": repr(delivered), "arrivals": repr(arrivals)}
+        if any(done_flags[len(delivered):]):
+            judge("a later read completed before an earlier one", here)
+        elif any(d[0] == "foreign" for d in delivered):
+            judge("read raised something other than a TransportError", here)
+        elif delivered != arrivals[: len(delivered)]:
+            judge("reads did not deliver the arrivals in order, each exactly once (one object, several connections)", here)
+        elif len(delivered) != min(len(reads), len(arrivals)):
+            judge("an arrival was not delivered to a read (lost at a disconnect / reconnect, reception ended silently, "
+                  "or a waiting read was orphaned)", here)
+        if kind in ("connect", "disconnect") and link == "down":
+            cur = asyncio.current_task()
+            stray = [t for t in asyncio.all_tasks() if t is not cur and not t.done() and t not in reads]
+            if stray:
+                judge("tasks left running after disconnect / after a failed connect", {**here, "leftover": len(stray)})
+    # tidy up: nothing of this run may leak into the next
+    if getattr(tr, "_incoming_task", None) is not None and getattr(tr, "_client", None) is not None:
+        await guarded(tr.disconnect())
+    for t in reads:
+        if not t.done():
+            t.cancel()
+    if reads:
+        await asyncio.wait(reads, timeout=1)
+    for t in reads:
+        if t.done() and not t.cancelled():
+            t.exception()      # retrieved, so that a broken tree does not flood stderr
+    await leftover_tasks()
+    return steps
+
+
+def object_ops(run: dict) -> list[str]:
+    out = ["onew"]
+    for op in run["ops"]:
+        k = op[0]
+        if k == "connect":
+            subs = ["ok"] * N_SUBS if op[2] is None else ["ok"] * op[2] + ["MqttError"] * (N_SUBS - op[2])
+            out.append(f"oconnect {op[1]} {op[3]} " + " ".join(subs))
+        elif k == "disconnect":
+            out.append(f"odisconnect {op[1]}")
+        elif k == "msg":
+            out.append(f"oev msg {enc(topic_of(run['in'], op[1]))} {encb(bytes.fromhex(op[2]))}")
+        elif k == "err":
+            out.append("oev err")
+        elif k == "read":
+            out.append("oread")
+        elif k == "write":
+            out.append(f"owrite {enc(OBJ_OUT)} {enc(op[1])} {op[2]}")
+        elif k == "sub":
+            out.append(f"osub {op[1]}")
+    return out
+
+
+def parse_ostate(o: str):
+    try:
+        parts = dict(x.split("=", 1) for x in split_state(o))
+        items = []
+        for tok in parts["delivered"].strip("[]").split(" "):
+            if tok == "":
+                continue
+            items.append(("e",) if tok == "e" else ("m", lib.dec(tok[2:])))
+        queue = [t for t in parts["queue"].strip("[]").split(" ") if t != ""]
+        return parts["res"], int(parts["client"]), parts["task"], items, int(parts["waiting"]), len(queue)
+    except (KeyError, ValueError, IndexError):
+        return ("model-error", o)
+
+
 # ---- part D: failing broker calls, UTF-8 -----------------------------------------------------
 
 
@@ -789,25 +1107,37 @@ def run_c18(ctx) -> Corr:
                 "every one of them (hence at every point), both transports (thorough: every kind assignment, plus "
                 "random sessions up to length 60); checked after each op: completed reads = first min(reads, "
                 "arrivals) arrivals in order, only TransportError subclasses raised, disconnect does not raise, no "
-                "task left; (d) failing broker calls; all compared with the Lean model (toTopic, toLine, "
-                "matchesFilter, subscriptions, utf8Decode, tStep, disconnect, connect, write). non-trivial = "
-                "distinct case with a special payload/prefix/field, every distinct session, subscription set and "
-                "failure script")
+                "task left; (d) failing broker calls; (e) ONE MQTTClient object through several connect / disconnect "
+                "cycles (8 written scenarios + 260 / 6000 random runs of 2-4, sometimes up to 12, cycles): broker "
+                "events inside and between connections, reads pending across a reconnect, unread items at a "
+                "disconnect, failing broker connection, failing subscription (any position), __aexit__ raising, "
+                "writes, misuse of the guards; checked after each op: reads get the arrivals of ALL connections in "
+                "order, each once, none lost; disconnect of a connected object returns and leaves neither task nor "
+                "client nor a running task; a healthy connect on a new or disconnected object succeeds; a failed "
+                "connect leaves no task; every step (result, client, task, read results, waiting reads, queue "
+                "length) compared with the object model oStep; all compared with the Lean model (toTopic, toLine, "
+                "matchesFilter, subscriptions, utf8Decode, tStep, disconnect, connect, write, oStep). non-trivial = "
+                "distinct case with a special payload/prefix/field, every distinct session, object run, "
+                "subscription set and failure script")
     rng = lib.rng_for(ctx.seed, "c18")
     mrng = lib.rng_for(ctx.seed, "c18-malformed")
     schemas = {v: codec.schema_for(v) for v in lib.VERSIONS}
     saved_client = mqtt_mod.AsyncioClient
     cases = mapping_cases(ctx, rng)
     sessions = session_cases(ctx, rng)
+    replay_runs: list = []
     if getattr(ctx, "replay", None):
         with open(ctx.replay, encoding="utf-8") as f:
             rc = json.load(f).get("case", {})
         if rc.get("kind") == "session":
             sessions.insert(0, {"transport": rc["transport"], "in": rc["in_prefix"], "ops": rc["ops"],
                                 "aexit": rc.get("aexit", "ok"), "label": "replay"})
+        elif rc.get("kind") == "object":
+            replay_runs.append({"in": rc["in_prefix"], "ops": rc["ops"], "label": "replay"})
         elif rc.get("kind") == "write":
             cases.insert(0, {"version": rc.get("version", "2.2"), "out": rc["out"], "in": rc["in"],
                              "fields": tuple(rc["fields"]), "payload": rc["payload"], "label": "replay"})
+    objects = replay_runs + object_runs(ctx, lib.rng_for(ctx.seed, "c18-object"))
     results: dict = {}
 
     async def main() -> None:
@@ -829,6 +1159,17 @@ def run_c18(ctx) -> Corr:
             corr.count("session-reads", shape.count("R"))
         results["sess"] = sess_obs
         results["fail"] = await run_failures(corr)
+        obj_obs = []
+        for run in objects:
+            obj_obs.append(await run_object(corr, run))
+            n_conn = sum(1 for op in run["ops"] if op[0] == "connect")
+            corr.case(("object", run["in"], json.dumps(run["ops"])), True,
+                      {"kind": "object", "in_prefix": run["in"], "ops": run["ops"]} if run["label"] == "scenario" else None)
+            corr.count(f"object-run:{run['label']}")
+            corr.count("object-run:connect-calls", n_conn)
+            for op in run["ops"]:
+                corr.count(f"object-op:{op[0]}")
+        results["obj"] = obj_obs
         await run_backlog(corr, 1500 if ctx.tier == "quick" else 20000)
 
     try:
@@ -854,6 +1195,9 @@ def run_c18(ctx) -> Corr:
         flat = []
         for so in sess_ops:
             flat.extend(so)
+        obj_ops = [object_ops(r) for r in objects]
+        for oo in obj_ops:
+            flat.extend(oo)
         all_ops = map_ops + sub_ops + raw_ops + fail_ops + [f"utf8 {encb(b)}" for b in u8] + flat
         outs = lib.run_model(all_ops, driver=DRIVER)
         pos = 0
@@ -892,7 +1236,23 @@ def run_c18(ctx) -> Corr:
                     break
             if mo[-1] != disc:
                 corr.disagree("disconnect", {**rec, "impl": disc, "model": mo[-1]})
+        for run, oo, steps in zip(objects, obj_ops, results["obj"]):
+            mo = outs[pos: pos + len(oo)]
+            pos += len(oo)
+            rec = {"kind": "object", "in_prefix": run["in"], "ops": run["ops"]}
+            for i, (st, o) in enumerate(zip(steps, mo[1:])):
+                model = parse_ostate(o)
+                if model != st:
+                    corr.disagree("object step (result, client held, task, read results, reads waiting, queue length)",
+                                  {**rec, "at_op": i, "op": run["ops"][i], "impl": repr(st), "model": repr(model)})
+                    break
     corr.exhaustive = False
     corr.notes.append("asyncio.Queue, task cancellation, aiomqtt and the broker are modelled (DESIGN section 5); the fake "
                       "client raises MqttError only, as aiomqtt documents")
+    if corr.dist.get("object:observation:failed-broker-connect"):
+        corr.notes.append("observation (outside the property's text, theorem failed_broker_connect_keeps_client / "
+                          "stuck_after_failed_broker_connect): MQTTClient._connect assigns self._client before awaiting "
+                          "__aenter__ and does not reset it when that raises, so after a failed broker connection every "
+                          "later connect() and disconnect() on the same object raises RuntimeError; model and "
+                          "implementation agree on it, the oracle does not judge it")
     return corr
